@@ -386,6 +386,9 @@ pub(crate) struct LogReader {
 
     /// The number of block records that were dropped because they failed validation.
     num_corrupted_records_skipped: usize,
+
+    /// True if the end of the file was reached while a fragmented record was being assembled.
+    ended_inside_record: bool,
 }
 
 /// Public methods
@@ -412,6 +415,7 @@ impl LogReader {
             current_cursor_position: initial_block_offset,
             current_block_offset: 0,
             num_corrupted_records_skipped: 0,
+            ended_inside_record: false,
         };
 
         Ok(reader)
@@ -444,7 +448,11 @@ impl LogReader {
             if let Err(physical_read_err) = maybe_record {
                 if let LogIOError::IO(db_io_error) = &physical_read_err {
                     match db_io_error.kind() {
-                        ErrorKind::UnexpectedEof => return Ok((vec![], true)),
+                        ErrorKind::UnexpectedEof => {
+                            // The writer died before it wrote the rest of the record
+                            self.ended_inside_record = in_fragmented_record;
+                            return Ok((vec![], true));
+                        }
                         _ => return Err(physical_read_err),
                     }
                 }
@@ -458,16 +466,26 @@ impl LogReader {
 
                 match record.block_type {
                     BlockType::Full => {
-                        // A preceding partial record was left by a writer that died mid-record
+                        if in_fragmented_record {
+                            // A preceding partial record was left by a writer that died mid-record
+                            self.num_corrupted_records_skipped += 1;
+                        }
                         return Ok((record.data, false));
                     }
                     BlockType::First => {
+                        if in_fragmented_record {
+                            // A preceding partial record was left by a writer that died mid-record
+                            self.num_corrupted_records_skipped += 1;
+                        }
                         data_buffer = record.data;
                         in_fragmented_record = true;
                     }
                     BlockType::Middle => {
                         if in_fragmented_record {
                             data_buffer.extend(record.data);
+                        } else {
+                            // A fragment without the start of its record
+                            self.num_corrupted_records_skipped += 1;
                         }
                     }
                     BlockType::Last => {
@@ -475,6 +493,9 @@ impl LogReader {
                             data_buffer.extend(record.data);
                             return Ok((data_buffer, false));
                         }
+
+                        // A fragment without the start of its record
+                        self.num_corrupted_records_skipped += 1;
                     }
                 }
             }
@@ -584,15 +605,17 @@ impl LogReader {
     /**
     Returns true if every byte of the log file was consumed as part of a valid block record.
 
-    This is false when the file ends in a partially written block record (e.g. a torn write) or
-    when corrupted records were skipped. Appending to such a file would make the appended records
-    unreadable, so it must not be reused for writing.
+    This is false when the file ends in a partially written block record (e.g. a torn write), when
+    it ends before the last fragment of a record or when corrupted records were skipped. Appending
+    to such a file would make the appended records unreadable or leave a record without an end in
+    the middle of the file, so it must not be reused for writing.
     */
     pub(crate) fn has_read_entire_file(&self) -> LogIOResult<bool> {
-        Ok(self.current_cursor_position as u64 == self.len()?)
+        Ok(!self.ended_inside_record && self.current_cursor_position as u64 == self.len()?)
     }
 
-    /// Returns the number of block records that were skipped because they were corrupted.
+    /// Returns the number of block records that were skipped because they were corrupted or did not
+    /// belong to a complete record.
     pub(crate) fn num_corrupted_records_skipped(&self) -> usize {
         self.num_corrupted_records_skipped
     }
